@@ -126,7 +126,7 @@ func runCase(run *evid.Run, sp spec) (res result) {
 		}
 	}
 	b := &backend{fail: st.fail, err: e0}
-	ch, err := buildChain(b.funcs(), maxHops, sp.Loopback)
+	ch, err := buildChain(b.funcs(), maxHops, sp.Loopback, (sp.Case/7)%2 == 1)
 	if err != nil {
 		res.inconcl = true
 		return
@@ -194,6 +194,18 @@ func runCase(run *evid.Run, sp spec) (res result) {
 			cnt("head_status_checked")
 			if o.Status != sp.ExpStatus {
 				add(k, "head-status/"+sp.codeClass(), "%s %d hop(s) away: status %d, want %d (%s) for e0=%q", st.method, k, o.Status, sp.ExpStatus, sp.StatusSrc, e0)
+			}
+			// A code that is the only one the specification gives its status to can be told from the
+			// status alone, so its identity has to survive even a body-less HEAD response.
+			if sp.WireCode == "UNAUTHORIZED" || sp.WireCode == "DENIED" || sp.WireCode == "TOOMANYREQUESTS" {
+				for i, s := range stdValues {
+					if s.code == sp.WireCode && e0Is[i] {
+						cnt("head_is_unique_status_checked")
+						if !o.isVec[i] {
+							add(k, "head-is/"+s.name, "%s %d hop(s) away: errors.Is(e_k, %s)=false but true on e0=%q (status %d belongs to that code alone; e_k=%q)", st.method, k, s.name, e0, o.Status, o.Error)
+						}
+					}
+				}
 			}
 			if k > 1 && os[0].IsHTTP {
 				cnt("head_stability_checked")
@@ -286,7 +298,7 @@ func main() {
 	run.Assume("empty code and errors without an OCI code are expected as UNKNOWN on the wire; absent detail and null detail are treated as equal")
 	run.Assume("ErrRangeInvalid: only preservation is required, and only when e0's code is RANGE_INVALID or the expected status is 416 (a table status overrides e0's own 416, which makes preservation impossible for conforming code)")
 	run.Assume("messages may change between e0 and hop 1; only hop1 == hop2 == hop3 is required (both Error() and the wire message)")
-	run.Assume("HEAD carriers (ResolveBlob/ResolveManifest/ResolveTag): only the status rule and stability of Error()/Is from hop 1 on; which standard value a status maps to is not asserted")
+	run.Assume("HEAD carriers (ResolveBlob/ResolveManifest/ResolveTag): only the status rule, stability of Error()/Is from hop 1 on, and errors.Is preservation for the three codes that own their status (401, 403, 429); which standard value any other status maps to is not asserted. In half of the in-process cases failed HEAD responses are delivered without a Content-Type")
 	run.Assume("ociclient never issues the single-POST upload, so the backend's PushBlob is unreachable through it; client PushBlob is exercised through its POST (PushBlobChunked) and PUT (PushBlobChunkedResume/Write/Commit) steps")
 	run.Assume("carriers that add a context prefix (client Commit, server PATCH copy/close) are held to the same fixed-point requirement and reported under their own carrier class; carriers that format the error with %v (server PUT copy, client resume-info GET) are held to the identity requirement and reported under identity-lost/<carrier class>")
 	run.Assume("an error that surfaced without the scripted backend step being reached is not judged (counted, makes the run inconclusive)")
@@ -392,7 +404,10 @@ func main() {
 	}
 	run.FloorCounter("transport:loopback", 1)
 	run.FloorCounter("transport:inproc", 1)
+	run.Count("head_error_without_content_type", int(headNoCType.Load()))
+	run.FloorCounter("head_error_without_content_type", 1)
 	run.FloorCounter("head_status_checked", 1)
+	run.FloorCounter("head_is_unique_status_checked", 1)
 	run.FloorCounter("fixed_point_checked", 1)
 	run.FloorCounter("detail_nonempty_checked", 1)
 	for _, w := range wraps {
